@@ -97,7 +97,21 @@ fn verif_api_replay() {
                 let r = catch_unwind(AssertUnwindSafe(|| block_on(db.as_ref().unwrap().ingest_efficient(EventBuffer { tables }))));
                 json!({"outcome": if r.is_ok() { "ok" } else { "panic" }})
             }
-            "flush" => { let r = catch_unwind(AssertUnwindSafe(|| db.as_ref().unwrap().force_flush())); json!({"outcome": if r.is_ok() { "ok" } else { "panic" }}) }
+            "flush" => {
+                // watchdog: a flush whose worker died never returns
+                let (tx, rx) = mpsc::channel();
+                let dbptr = db.as_ref().unwrap() as *const LocustDB as usize;
+                std::thread::spawn(move || {
+                    let dbref: &LocustDB = unsafe { &*(dbptr as *const LocustDB) };
+                    let r = catch_unwind(AssertUnwindSafe(|| dbref.force_flush()));
+                    let _ = tx.send(r.is_ok());
+                });
+                match rx.recv_timeout(Duration::from_secs(30)) {
+                    Ok(true) => json!({"outcome": "ok"}),
+                    Ok(false) => json!({"outcome": "panic"}),
+                    Err(_) => json!({"outcome": "no-answer-within-30s"}),
+                }
+            }
             "evict" => { let r = catch_unwind(AssertUnwindSafe(|| db.as_ref().unwrap().evict_cache())); json!({"outcome": if r.is_ok() { "ok" } else { "panic" }}) }
             "restart" => { drop(db.take()); db = Some(make_db(&opts, &path)); json!({"outcome": "ok"}) }
             "query" => {
